@@ -367,6 +367,26 @@ JunctionEndIsSum ==
   Done => \A oe \in Ends : LineKind(oe[1], oe[2]) = "J" =>
      \A q \in 0..(NP-1) : JCoef(oe[1], oe[2], q) = Through(oe[1], oe[2], q)
 
+\* ---------------------------------------------------------------- the exact-kernel rule (flag I6 of MININEC)
+\* Geobj.is_connected: the other object is recorded at one of my ends, or we have a recorded neighbour in common.
+\* (At a point where several objects end, every later object records only the FIRST object of that point, and that
+\* first object records all of them.)  The matrix fill uses the exact kernel between two pulses iff their OWNER
+\* objects are connected in this sense (Pulse_Container.matrix_geo_unconnected).
+ConnSet(o) == {conn[o][1][k].geo : k \in 1..Len(conn[o][1])} \cup {conn[o][2][k].geo : k \in 1..Len(conn[o][2])}
+Connected(a, b) == a = b \/ b \in ConnSet(a) \/ a \in ConnSet(b) \/ ConnSet(a) \cap ConnSet(b) # {}
+ExactKernel(p, q) == Connected(pulses[p].owner, pulses[q].owner)
+\* what the geometry says: two objects are joined when they share a point off the ground plane
+Touch(a, b) == \E e1, e2 \in {0, 1} : Pt(a, e1) = Pt(b, e2) /\ ~IsGnd(Pt(a, e1))
+JoinedOrCommon(a, b) == a = b \/ Touch(a, b) \/ \E c \in 1..NO : Touch(a, c) /\ Touch(c, b)
+\* DESIGN statement that does NOT hold (recorded finding of C06): with four objects, a one-segment piece between a
+\* point where three objects meet and the rest of its wire leaves that rest "unconnected" to the second object of
+\* the point although both touch the piece.  TLC must keep producing the counterexample.
+ExactKernelFollowsGeometry ==
+  Done => \A a, b \in 1..NO : Connected(a, b) <=> JoinedOrCommon(a, b)
+\* the sound half: the rule never claims a connection the geometry does not have
+ConnectedOnlyIfJoined ==
+  Done => \A a, b \in 1..NO : Connected(a, b) => JoinedOrCommon(a, b)
+
 \* ---------------------------------------------------------------- dump for replay
 Lines == [o \in 1..NO |-> [e \in 1..2 |->
             [kind |-> LineKind(o, e-1),
@@ -377,6 +397,7 @@ DumpRec ==
    wconn |-> [o \in 1..NO |-> <<WireConn(o, 0), WireConn(o, 1)>>],
    lines |-> Lines,
    rows |-> [o \in 1..NO |-> NumberedRows(o)],
+   exact |-> [p \in 1..NP |-> [q \in 1..NP |-> ExactKernel(p, q)]],
    opulses |-> [o \in 1..NO |-> ObjPulses(o)]]
 Dump == Done => PrintT(ToJson(DumpRec))
 RejectDump == (stage \in {"reject", "assert"}) =>
